@@ -721,8 +721,8 @@ def gen_stream(rng, profile="mixed", max_requests=4):
             raw = gen_valid_request(rng, i, allow_close=True, last=(i == n - 1))
             desc.append("valid")
         parts.append(raw)
-        if rng.random() < 0.06:
-            parts.append(b"\r\n")  # the extra blank line some clients send after a POST
+        if rng.random() < 0.12:
+            parts.append(b"\r\n")  # the extra blank line some clients send after a request (also between pipelined ones)
             desc.append("crlf")
     data = b"".join(parts)
     if profile == "mutated":
